@@ -188,7 +188,9 @@ func parseParamValue(
 
 		if strings.HasPrefix(value, `"`) || strings.HasPrefix(value, "`") {
 			if strings.HasPrefix(value, `"`) {
-				value = strings.Trim(value, `"`)
+				// Remove the enclosing quotes only: a value may itself end
+				// (or begin) with an escaped quote.
+				value = strings.TrimSuffix(strings.TrimPrefix(value, `"`), `"`)
 				value = strings.ReplaceAll(value, `\"`, `"`)
 			}
 
